@@ -75,7 +75,7 @@ fn cfg_for(args: &Args) -> Cfg {
     if prop == "C13" {
         c.l2_factor = 1.0;
         c.elementwise = true;
-        c.dense_max = if t { 768 } else { 192 };
+        c.dense_max = if t { 512 } else { 192 };
         c.struct_max = 1 << 16;
         c.struct_count = if t { 60 } else { 12 };
         c.basis_max = if t { 256 } else { 48 };
